@@ -155,7 +155,7 @@ func runOnce(c *caseT, o runOpts, preflight bool) (out runOut) {
 	}
 	content := bytesOf(c.W)
 	f, fs := fileAt(content, c.B)
-	rd := text.NewReader(f)
+	rd := readerFor(f)
 	t.remain = func(pos int) int { return len(content) - (pos - c.B) }
 	ctx := parsley.NewContext(fs, rd)
 	func() {
@@ -240,7 +240,7 @@ func apiCall(c *caseT, ps []parsley.Parser, content []byte) J {
 			}
 		}()
 		f, fs := fileAt(content, c.B)
-		ctx := parsley.NewContext(fs, text.NewReader(f))
+		ctx := parsley.NewContext(fs, readerFor(f))
 		node, err := parsley.Parse(ctx, ps[c.Root-1])
 		res["node"] = node != nil
 		res["err"] = err != nil
@@ -253,7 +253,7 @@ func apiCall(c *caseT, ps []parsley.Parser, content []byte) J {
 			res["span"] = []int{int(node.Pos()), int(node.ReaderPos())}
 		}
 		f2, fs2 := fileAt(content, c.B)
-		ctx2 := parsley.NewContext(fs2, text.NewReader(f2))
+		ctx2 := parsley.NewContext(fs2, readerFor(f2))
 		val, err2 := parsley.Evaluate(ctx2, ps[c.Root-1])
 		res["val"] = val != nil
 		res["everr"] = err2 != nil
